@@ -283,6 +283,7 @@ def parseObs (c : Case) (line : String) : Option (Sum String Obs) :=
       | some v => .inr (.accepted v re (t == "1"))
       | none => .inl (lower c.root ++ "-accepted-value-not-in-schema")
   | some [.atom "rejected"] => some (.inr .rejected)
+  | some [.atom "bridge-entry", .atom what] => some (.inl (lower c.root ++ "-bridge-entry-" ++ what))
   | some (.atom "unbuildable" :: _) => some (.inl (lower c.root ++ "-printed-value-not-buildable"))
   | some (.atom "unstable" :: _) => some (.inl (lower c.root ++ "-printed-value-changes-when-rebuilt"))
   | _ => none
@@ -296,7 +297,17 @@ def parseTypegen (line : String) : Option (String × Nat × Bool) :=
     if r == "1" then pure (app, n, true) else if r == "0" then pure (app, n, false) else none
   | _ => none
 
+/-- `big <root> <format> <n> <registry>`: a schema-valid value of `n` payload bytes, built, encoded and offered to the real
+    bridge by the harness. The model's answer does not depend on `n`: every well-typed encoding decodes (`dec_enc`, unbounded). -/
+def parseBig (line : String) : Option (String × Nat) :=
+  match parseLine line with
+  | some [.atom "big", .atom root, _, .atom n, _] => n.toNat?.map fun n => (root, n)
+  | _ => none
+
 def model (line : String) : String :=
+  match parseBig line with
+  | some (_, n) => s!"accepted-big {n}"
+  | none =>
   match parseTypegen line with
   | some (_, n, r) => if typegenRefuses n r then "typegen-refused" else "typegen-accepted"
   | none =>
@@ -307,6 +318,9 @@ def model (line : String) : String :=
 def oracle (line : String) : String :=
   match line.splitOn "\t" with
   | [cl, o] =>
+    match parseBig cl with
+    | some (root, n) => if o == s!"accepted-big {n}" then "ok" else "reject " ++ lower root ++ "-large-valid-message-not-accepted"
+    | none =>
     match parseTypegen cl with
     | some (app, n, r) =>
       if o == "typegen-refused" then (if typegenOk n r true then "ok" else "reject " ++ lower app ++ "-typegen")
